@@ -57,6 +57,31 @@ fn impl_set_map_value_fxn(
         .with_compiler_loc());
       }
 
+      // Value kind check. Done before the entry is created, so that a rejected
+      // assignment to a new key leaves the map as it was: only the kinds below
+      // have a kernel, and the value must be of the kind the map holds.
+      let has_kernel = match &source {
+        #[cfg(feature = "bool")]
+        Value::Bool(_) => true,
+        #[cfg(feature = "i64")]
+        Value::I64(_) => true,
+        #[cfg(feature = "f64")]
+        Value::F64(_) => true,
+        #[cfg(feature = "string")]
+        Value::String(_) => true,
+        _ => false,
+      };
+      if !has_kernel || source.kind() != map.value_kind {
+        return Err(MechError::new(
+          MapValueKindMismatchError {
+            expected_kind: map.value_kind.clone(),
+            actual_kind: source.kind(),
+          },
+          None,
+        )
+        .with_compiler_loc());
+      }
+
       // Get existing value slot or insert a default value
       let value = map.map.entry(key.clone()).or_insert_with(|| {
         source.clone()
